@@ -298,7 +298,7 @@ fn build(c: &Cmd, env0: &Env, aborts: &Aborts) -> C {
 }
 
 // ---------------------------------------------------------------- generator
-struct Gen { rng: Rng, next_tag: u64, next_name: u64, names: Vec<u64>, ev_tags: Vec<u64>, legacy: bool }
+struct Gen { rng: Rng, next_tag: u64, next_name: u64, names: Vec<u64>, ev_tags: Vec<u64>, legacy: bool, scope: Vec<u64> }
 impl Gen {
     fn expr(&mut self, nvars: usize) -> Expr {
         match self.rng.below(6) {
@@ -315,6 +315,7 @@ impl Gen {
         *budget -= 1;
         if *budget <= 0 { return Task::Ret; }
         let mut r = self.rng.below(100);
+        if !self.legacy && !self.scope.is_empty() && r < 18 && self.rng.coin(1, 3) { r = 36; }   // self-abort inside an abortable command
         if self.legacy && (matches!(r, 14..=17) || r >= 84 && r <= 95 || r >= 98) { r = 20 + r % 40; }   // no join!/select!/handles in the legacy fragment
         match r {
             0..=13 => Task::Ret,
@@ -324,7 +325,7 @@ impl Gen {
             16..=17 => { let t1 = self.tag(); let t2 = self.tag(); let e1 = self.expr(nvars); let e2 = self.expr(nvars);
                     let x = (self.rng.below((nvars as u64 + 1).min(8))) as usize; *budget -= 1;
                     Task::Race(t1, e1, t2, e2, x, Box::new(self.task(budget, nvars.max(x + 1), handles, depth))) }
-            35..=37 if !self.legacy => { let n = 1 + self.rng.below(3); Task::AbortC(n, Box::new(self.task(budget, nvars, handles, depth))) }
+            35..=37 if !self.legacy => { let n = if !self.scope.is_empty() && self.rng.coin(3, 4) { *self.rng.pick(&self.scope.clone()) } else { 1 + self.rng.below(3) }; Task::AbortC(n, Box::new(self.task(budget, nvars, handles, depth))) }
             18..=37 => { let t = self.evtag(); let e = self.expr(nvars); Task::Emit(t, e, Box::new(self.task(budget, nvars, handles, depth))) }
             38..=45 => { let t = self.tag(); let e = self.expr(nvars); Task::Notify(t, e, Box::new(self.task(budget, nvars, handles, depth))) }
             46..=63 => { let t = self.tag(); let e = self.expr(nvars); let x = (self.rng.below((nvars as u64 + 1).min(8))) as usize;
@@ -385,7 +386,8 @@ impl Gen {
             85..=87 => Cmd::IdEff(Box::new(self.cmd(depth - 1, nvars))),
             88..=90 => Cmd::IdEv(Box::new(self.cmd(depth - 1, nvars))),
             91..=93 => Cmd::Into(Box::new(self.cmd(depth - 1, nvars))),
-            _ => { self.next_name += 1; let n = self.next_name; self.names.push(n); Cmd::Abortable(n, Box::new(self.cmd(depth - 1, nvars))) }
+            _ => { self.next_name += 1; let n = self.next_name; self.names.push(n); self.scope.push(n);
+                   let inner = self.cmd(depth - 1, nvars); self.scope.pop(); Cmd::Abortable(n, Box::new(inner)) }
         }
     }
 }
@@ -835,7 +837,7 @@ fn main() {
     let mode: String = args.get(4).cloned().unwrap_or_else(|| "mix".into());
     for idx in 0..count {
         // one independent generator state per case so that a single case can be regenerated
-        let mut g = Gen { rng: Rng::new(seed.wrapping_mul(1_000_003).wrapping_add(idx as u64)), next_tag: 0, next_name: 0, names: vec![], ev_tags: vec![], legacy: false };
+        let mut g = Gen { rng: Rng::new(seed.wrapping_mul(1_000_003).wrapping_add(idx as u64)), next_tag: 0, next_name: 0, names: vec![], ev_tags: vec![], legacy: false, scope: vec![] };
         let core_host = idx % 3 == 2;
         let legacy_host = idx % 6 == 5;
         let depth = match g.rng.below(10) { 0..=2 => 0, 3..=5 => 1, 6..=7 => 2, 8 => 3, _ => 4 };
